@@ -1232,13 +1232,21 @@ impl MdkStorageProvider for MdkSqliteStorage {
 
     fn prune_expired_snapshots(&self, min_timestamp: u64) -> Result<usize, MdkStorageError> {
         let conn = self.connection.lock().unwrap();
-        let deleted = conn
-            .execute(
-                "DELETE FROM group_state_snapshots WHERE created_at < ?",
+        // A snapshot is stored as one row per captured table row: count snapshots, not rows.
+        let expired: i64 = conn
+            .query_row(
+                "SELECT COUNT(*) FROM (SELECT DISTINCT snapshot_name, group_id
+                 FROM group_state_snapshots WHERE created_at < ?)",
                 rusqlite::params![min_timestamp as i64],
+                |row| row.get(0),
             )
             .map_err(|e| MdkStorageError::Database(e.to_string()))?;
-        Ok(deleted)
+        conn.execute(
+            "DELETE FROM group_state_snapshots WHERE created_at < ?",
+            rusqlite::params![min_timestamp as i64],
+        )
+        .map_err(|e| MdkStorageError::Database(e.to_string()))?;
+        Ok(expired as usize)
     }
 }
 
